@@ -12,6 +12,7 @@ from yamlpath.enums import (
     AnchorMatches,
     PathSearchMethods,
 )
+from yamlpath.exceptions import YAMLPathException
 from yamlpath.common import Anchors, Nodes
 from yamlpath.types import PathAttributes
 from yamlpath.path import SearchTerms
@@ -114,7 +115,13 @@ class Searches:
             else:
                 matches = str(typed_haystack) <= str(needle)
         elif method == PathSearchMethods.REGEX:
-            matcher = re.compile(needle)
+            try:
+                matcher = re.compile(needle)
+            except re.error as wrap_ex:
+                raise YAMLPathException(
+                    "Invalid regular expression, {}".format(wrap_ex),
+                    str(needle)
+                ) from wrap_ex
             matches = matcher.search(str(typed_haystack)) is not None
         else:
             raise NotImplementedError
